@@ -43,6 +43,15 @@ for _c in (
 ):
     _c.__spec_ref__ = True      # compared by identity in specs
 
+def _future_deepcopy(self: Any, memo: dict) -> Any:
+    f = RuntimeFuture(self.mailbox_id)
+    f._next_flag = self._next_flag
+    memo[id(self)] = f
+    return f
+
+
+RuntimeFuture.__deepcopy__ = _future_deepcopy   # harness process only
+
 GLOBALS = {
     'RuntimeMessage': RuntimeMessage, 'MessageDirection': MessageDirection,
     'CompilationStatus': CompilationStatus, 'RuntimeAddress': RuntimeAddress,
@@ -118,6 +127,10 @@ class Sink:
         return hash(self._name)
 
 
+class Blocked(Exception):
+    """The real call would block here (nothing more to observe)."""
+
+
 class ListQueue(list):
     """The worker's ready queue, observable as a list."""
 
@@ -131,7 +144,7 @@ class ListQueue(list):
 
     def get(self) -> Any:
         if not self:
-            raise RuntimeError('stub: blocking get on an empty queue')
+            raise Blocked('blocking get on an empty queue')
         return self.pop(0)
 
     def empty(self) -> bool:
@@ -397,6 +410,9 @@ def check_contract(
             res = None
             try:
                 res = fn(node, **args)
+            except Blocked:
+                evaluated += 1
+                continue
             except BaseException as e:  # noqa: BLE001
                 exc = e
                 tb = traceback.format_exc()
@@ -613,3 +629,199 @@ def REBUILD(sc: Scenario) -> Scenario:  # noqa: F811
         })
         return new
     return _OLD_REBUILD(sc)
+
+
+# ------------------------------------------------------- worker scenarios
+class CoroStub:
+    """Stands for a started coroutine (close() as on the real one)."""
+
+    def __init__(self) -> None:
+        self.closed = False
+
+    def close(self) -> None:
+        self.closed = True
+
+    def __eq__(self, o: object) -> bool:
+        return isinstance(o, CoroStub)
+
+    def __hash__(self) -> int:
+        return 1
+
+
+WADDR = [RuntimeAddress(5, 0, 0), RuntimeAddress(5, 1, 0),
+         RuntimeAddress(0, 9, 0), RuntimeAddress(0, 9, 1)]
+# box kinds: (single?, expected, num_results)
+BOX_KINDS = [
+    (True, 1, 0), (True, 1, 1), (False, 2, 0), (False, 2, 1), (False, 2, 2),
+]
+
+
+def mk_worker(
+    n_tasks: int, boxes: tuple, active: int | None, ready: tuple,
+    cancelled: tuple, delayed: int = 0, crumbs: tuple = (),
+) -> Scenario:
+    """boxes: tuple of (kind index, owner task index, waiting task index or
+    None, fresh: None / 0 / 1 entries)."""
+    log: list = []
+    w = object.__new__(Worker)
+    w._id = 0
+    w._conn = FakeConn('boss', log)
+    w._tasks = {}
+    tasks = []
+    for k in range(n_tasks):
+        bc = tuple(WADDR[c] for c in crumbs[k]) if k < len(crumbs) else ()
+        t = mk_task(WADDR[k], bc)
+        t.coro = CoroStub()
+        w._tasks[WADDR[k]] = t
+        tasks.append(t)
+    w._delayed_tasks = [
+        mk_task(RuntimeAddress(7, k, 0), (WADDR[0],) if k % 2 == 0 else ())
+        for k in range(delayed)
+    ]
+    w._ready_task_ids = ListQueue(WADDR[i] for i in ready)
+    w._cancelled_task_ids = set(WADDR[i] for i in cancelled)
+    w._active_task = tasks[active] if active is not None else None
+    w._running = True
+    w._mailboxes = {}
+    w._mailbox_counter = len(boxes)
+    w._cache = {}
+    w.most_recent_read_submit = None
+    w.read_receipt_mutex = Sink('mutex', log)
+    for m, (kind, owner, waiting, fresh) in enumerate(boxes):
+        single, expected, got = BOX_KINDS[kind]
+        b = WorkerMailbox.new_mailbox(None if single else expected)
+        b.num_results = got
+        if single and got:
+            b.result = ('val', m)
+        if not single:
+            for sl in range(got):
+                b.result[sl] = ('val', m, sl)
+        if waiting is not None and waiting < n_tasks:
+            b.dest_addr = WADDR[waiting]
+            tasks[waiting].desired_box_id = m
+        if fresh is not None:
+            b.fresh_results = [(sl, ('val', m, sl)) for sl in range(fresh)]
+        w._mailboxes[m] = b
+        if owner is not None and owner < n_tasks:
+            tasks[owner].owned_mailboxes.append(m)
+    desc = ('worker', n_tasks, boxes, active, ready, cancelled, delayed,
+            crumbs)
+    sc = Scenario(w, log, desc)
+    sc.conns = [w._conn]
+    sc.ints = set(range(-1, len(boxes) + 3))
+    sc.extra['addrs'] = list(WADDR) + [RuntimeAddress(7, k, 0) for k in (0, 1)]
+    sc.extra['worker_ids'] = [0]
+    sc.extra['tasks'] = tasks
+    return sc
+
+
+def worker_scenarios(tier: str = 'quick') -> Iterator[Scenario]:
+    """Workers with 1-2 live tasks and 0-2 mailboxes.  The first mailbox
+    takes every kind / owner / waiting / fresh combination; the second one
+    is restricted (quick) to an empty single box and a half-filled map box
+    so that the space stays in the low thousands."""
+    for n_tasks in (1, 2):
+        first = [
+            (k, o, wt, fr)
+            for k in range(len(BOX_KINDS)) for o in range(n_tasks)
+            for wt in (None, o)
+            for fr in ((None, 1) if tier == 'quick' else (None, 0, 1))
+        ]
+        second_kinds = (0, 3) if tier == 'quick' else range(len(BOX_KINDS))
+        second = [
+            (k, o, wt, None) for k in second_kinds for o in range(n_tasks)
+            for wt in ((None,) if tier == 'quick' else (None, o))
+        ]
+        combos: list[tuple] = [()]
+        combos += [(b,) for b in first]
+        combos += [(b1, b2) for b1 in first for b2 in second]
+        for boxes in combos:
+            ws = [b[2] for b in boxes if b[2] is not None]
+            if len(ws) != len(set(ws)):
+                continue
+            actives = (None, 0) if tier == 'quick' else \
+                [None] + list(range(n_tasks))
+            for active in actives:
+                for cancelled in ((), (1,)) if tier == 'quick' else \
+                        ((), (0,), (1,), (2,)):
+                    readies = ((),) if tier == 'quick' else ((), (0,))
+                    for ready in readies:
+                        yield mk_worker(
+                            n_tasks, boxes, active, ready, cancelled,
+                        )
+
+
+_OLD_REBUILD2 = REBUILD
+
+
+def REBUILD(sc: Scenario) -> Scenario:  # noqa: F811
+    d = sc.desc
+    if d[0] == 'worker':
+        return mk_worker(*d[1:])
+    return _OLD_REBUILD2(sc)
+
+
+def box_scenarios(tier: str = 'quick') -> Iterator[Scenario]:
+    for kind in range(len(BOX_KINDS)):
+        for fresh in (None, 0, 1, 2):
+            for waiting in (None, 0):
+                yield mk_box(kind, fresh, waiting)
+
+
+def mk_box(kind: int, fresh: int | None, waiting: int | None) -> Scenario:
+    log: list = []
+    single, expected, got = BOX_KINDS[kind]
+    b = WorkerMailbox.new_mailbox(None if single else expected)
+    b.num_results = got
+    if single and got:
+        b.result = ('val',)
+    if not single:
+        for sl in range(got):
+            b.result[sl] = ('val', sl)
+    if fresh is not None:
+        b.fresh_results = [(sl, ('val', sl)) for sl in range(fresh)]
+    if waiting is not None:
+        b.dest_addr = WADDR[waiting]
+    sc = Scenario(b, log, ('box', kind, fresh, waiting))
+    sc.ints = set(range(-1, 4))
+    sc.extra['addrs'] = list(WADDR)
+    return sc
+
+
+_OLD_REBUILD3 = REBUILD
+
+
+def REBUILD(sc: Scenario) -> Scenario:  # noqa: F811
+    d = sc.desc
+    if d[0] == 'box':
+        return mk_box(*d[1:])
+    return _OLD_REBUILD3(sc)
+
+
+def lifecycle_scenarios(tier: str = 'quick') -> Iterator[Scenario]:
+    """Workers for the task life cycle: 1-3 started tasks with ancestor
+    chains over two foreign addresses X, Y, any set of cancelled addresses,
+    short ready queues (possibly naming discarded tasks), 0-2 delayed tasks,
+    each task owning 0-1 (quick) / 0-2 mailboxes."""
+    crumb_opts = [(), (2,), (3,), (2, 3)]
+    max_tasks = 2 if tier == 'quick' else 3
+    for n_tasks in range(1, max_tasks + 1):
+        for crumbs in itertools.product(crumb_opts, repeat=n_tasks):
+            for cancelled in ((), (2,), (3,), (0,), (0, 3)):
+                ready_opts: list[tuple] = [(), (0,)]
+                if n_tasks > 1:
+                    ready_opts += [(1,), (1, 0)]
+                if tier != 'quick':
+                    ready_opts += [(0, 0)]
+                for ready in ready_opts:
+                    for delayed in ((0, 2) if tier == 'quick' else (0, 1, 2)):
+                        for nbox in ((0, 1) if tier == 'quick' else (0, 1, 2)):
+                            boxes = tuple(
+                                (2 if k % 2 else 0, k % n_tasks, None, None)
+                                for k in range(nbox * n_tasks)
+                            )
+                            for active in (None, 0):
+                                yield mk_worker(
+                                    n_tasks, boxes, active, ready, cancelled,
+                                    delayed, crumbs,
+                                )
